@@ -71,6 +71,8 @@ type Interp struct {
 	orderMode string // "", "fwdrev", "all"
 	orderDev  bool   // a non-default iteration order was taken on this path
 	rangeCount int
+	ifConverted int
+	noIfConv    bool
 
 	initMark     int
 	sharedMark   int
@@ -433,6 +435,19 @@ func (in *Interp) runBlock(fr *Frame) (Val, bool) {
 			if c.T == nil {
 				taken = c.C == 1
 			} else {
+				if !in.noIfConv {
+					if j, ret, ok := in.ifConvert(fr, b, c.T); ok {
+						if ret {
+							for i := len(fr.defers) - 1; i >= 0; i-- {
+								fr.defers[i]()
+							}
+							fr.defers = nil
+							return nil, true
+						}
+						fr.prev, fr.block = b, j
+						return nil, false
+					}
+				}
 				taken = in.ex.Branch(c.T)
 			}
 			if taken {
@@ -534,7 +549,7 @@ func (in *Interp) visit(fr *Frame, instr ssa.Instruction) {
 	case *ssa.Slice:
 		fr.set(in, instr, in.sliceOp(instr, fr.get(in, instr.X), fr.get(in, instr.Low), fr.get(in, instr.High), fr.get(in, instr.Max)))
 	case *ssa.Store:
-		p := fr.get(in, instr.Addr).(Ptr)
+		p := in.asPtr(fr.get(in, instr.Addr))
 		if p.Slot == nil {
 			in.libPanic("nil-deref", "store")
 		}
@@ -612,7 +627,7 @@ func (in *Interp) visit(fr *Frame, instr ssa.Instruction) {
 			fr.set(in, instr, Tuple{concBool(true), it.m.Keys[i], copyVal(it.m.Vals[i])})
 		}
 	case *ssa.FieldAddr:
-		p := fr.get(in, instr.X).(Ptr)
+		p := in.asPtr(fr.get(in, instr.X))
 		if p.Slot == nil {
 			in.libPanic("nil-deref", "field "+instr.String())
 		}
@@ -623,8 +638,16 @@ func (in *Interp) visit(fr *Frame, instr ssa.Instruction) {
 	case *ssa.IndexAddr:
 		x := fr.get(in, instr.X)
 		idx := in.to64(fr.get(in, instr.Index), instr.Index.Type())
+		if sr, ok := x.(SymRef); ok {
+			x = in.asPtr(sr)
+		}
 		switch x := x.(type) {
 		case Slice:
+			if idx.T != nil && x.Obj != nil && symTable(x.Obj.Cells, x.Off, x.Len) {
+				in.checkIndex(idx, x.Len)
+				fr.set(in, instr, SymRef{cells: x.Obj.Cells, off: x.Off, n: x.Len, idx: idx.T, obj: x.Obj})
+				return
+			}
 			i := in.concIndex(idx, x.Len, "index")
 			fr.set(in, instr, Ptr{&x.Obj.Cells[x.Off+i], x.Obj})
 		case Ptr:
@@ -632,6 +655,11 @@ func (in *Interp) visit(fr *Frame, instr ssa.Instruction) {
 				in.libPanic("nil-deref", "index")
 			}
 			arr := (*x.Slot).(Array)
+			if idx.T != nil && symTable(arr, 0, len(arr)) {
+				in.checkIndex(idx, len(arr))
+				fr.set(in, instr, SymRef{cells: arr, off: 0, n: len(arr), idx: idx.T, obj: x.Obj})
+				return
+			}
 			i := in.concIndex(idx, len(arr), "index")
 			fr.set(in, instr, Ptr{&arr[i], x.Obj})
 		default:
@@ -640,7 +668,13 @@ func (in *Interp) visit(fr *Frame, instr ssa.Instruction) {
 	case *ssa.Index:
 		switch x := fr.get(in, instr.X).(type) {
 		case Array:
-			i := in.concIndex(in.to64(fr.get(in, instr.Index), instr.Index.Type()), len(x), "index")
+			idx := in.to64(fr.get(in, instr.Index), instr.Index.Type())
+			if idx.T != nil && symTable(x, 0, len(x)) {
+				in.checkIndex(idx, len(x))
+				fr.set(in, instr, in.loadSymRef(SymRef{cells: x, n: len(x), idx: idx.T}))
+				return
+			}
+			i := in.concIndex(idx, len(x), "index")
 			fr.set(in, instr, copyVal(x[i]))
 		case Str:
 			x = in.flat(x)
@@ -756,6 +790,66 @@ func (in *Interp) to64(v Val, t types.Type) Sc {
 		return in.fromTerm(in.tt.SExt(s.T, 64))
 	}
 	return in.fromTerm(in.tt.ZExt(s.T, 64))
+}
+
+// SymRef is the address of an element of a table of concrete scalars at a
+// symbolic (already bounds-checked) index. Loading through it yields an
+// ite-chain over the elements instead of one path per index.
+type SymRef struct {
+	cells []Val
+	off   int
+	n     int
+	idx   *Term // 64 bit
+	obj   *Obj
+}
+
+// asPtr turns any address value into an ordinary pointer (a SymRef is
+// concretised by forking over the index values).
+func (in *Interp) asPtr(v Val) Ptr {
+	switch p := v.(type) {
+	case Ptr:
+		return p
+	case SymRef:
+		i := int(in.ex.Concretize(p.idx))
+		return Ptr{&p.cells[p.off+i], p.obj}
+	}
+	panic(fmt.Sprintf("asPtr of %T", v))
+}
+
+// symTable reports whether cells[off:off+n] are all concrete scalars of one width.
+func symTable(cells []Val, off, n int) bool {
+	if n < 2 || n > 64 {
+		return false
+	}
+	w := -1
+	for i := 0; i < n; i++ {
+		s, ok := cells[off+i].(Sc)
+		if !ok || s.T != nil {
+			return false
+		}
+		if w >= 0 && int(s.W) != w {
+			return false
+		}
+		w = int(s.W)
+	}
+	return true
+}
+
+func (in *Interp) loadSymRef(p SymRef) Val {
+	t := in.term(p.cells[p.off+p.n-1].(Sc))
+	for i := p.n - 2; i >= 0; i-- {
+		t = in.tt.Ite(in.tt.Eq(p.idx, in.tt.Const(64, uint64(i))), in.term(p.cells[p.off+i].(Sc)), t)
+	}
+	return in.fromTerm(t)
+}
+
+// checkIndex forks on the bounds check of a symbolic index (as concIndex
+// does) without concretising it.
+func (in *Interp) checkIndex(idx Sc, n int) {
+	inRange := in.tt.Cmp(OUlt, idx.T, in.tt.Const(64, uint64(n)))
+	if !in.ex.Branch(inRange) {
+		in.libPanic("index-out-of-range", "symbolic index")
+	}
 }
 
 // concIndex bounds-checks idx against [0,n) (for make: [0,n]) exactly as the
@@ -887,6 +981,8 @@ func (in *Interp) sliceOp(instr *ssa.Slice, x, lo, hi, max Val) Val {
 	case Str:
 		isStr, str = true, in.flat(x)
 		ln, cp = len(str.B), len(str.B)
+	case SymRef:
+		return in.sliceOp(instr, in.asPtr(x), lo, hi, max)
 	case Ptr:
 		if x.Slot == nil {
 			in.libPanic("nil-deref", "slice of nil array pointer")
@@ -936,6 +1032,13 @@ func (in *Interp) sliceOp(instr *ssa.Slice, x, lo, hi, max Val) Val {
 	chk(in.tt.Cmp(OUle, tm, cst(bound)), "max out of range")
 	chk(in.tt.Cmp(OUle, th, tm), "high out of range")
 	chk(in.tt.Cmp(OUle, tl, th), "low > high")
+	if isStr && (!th.IsConst() || !tl.IsConst()) {
+		if cs, ok := str.Conc(); ok && len(cs) > 0 {
+			// a constant string sliced at symbolic (checked) bounds: keep it
+			// as one opaque piece instead of one path per pair of bounds
+			return Str{R: []Piece{{Op: &Opaque{Verb: "%s", Kind: "substr", Aux: cs, Args: []Sc{in.fromTerm(tl), in.fromTerm(th)}}}}}
+		}
+	}
 	m := int(in.ex.Concretize(tm))
 	h := int(in.ex.Concretize(th))
 	l := int(in.ex.Concretize(tl))
@@ -1225,6 +1328,9 @@ func (in *Interp) equal(x, y Val) *Term {
 func (in *Interp) unop(instr *ssa.UnOp, x Val) Val {
 	switch instr.Op {
 	case token.MUL:
+		if sr, ok := x.(SymRef); ok {
+			return in.loadSymRef(sr)
+		}
 		p := x.(Ptr)
 		if p.Slot == nil {
 			in.libPanic("nil-deref", "load")
